@@ -71,6 +71,13 @@ func runC09(h *H) {
 				w.Str("ok").Vec(recv)
 			}
 			h.emit(w)
+			if err == nil && alias == "fresh" {
+				// same for sums and differences: mutating the result in place leaves both operands alone
+				recv.ScaleVec(2, recv)
+				g.count(op + ":then-mutate-result")
+				h.emit(h.line("C09", "sum").Vec(v1).Bar().F(a.Sum()))
+				h.emit(h.line("C09", "sum").Vec(v2).Bar().F(b.Sum()))
+			}
 		case 2: // scale, receiver aliased or not; factors 0, 1, -1, 2^k, underflowing
 			v := g.vec(g.intn(12) + 1)
 			var a float64
@@ -110,6 +117,15 @@ func runC09(h *H) {
 			}
 			recv.ScaleVec(a, in)
 			h.emit(h.line("C09", "scale").F(a).Vec(v).Bar().Vec(recv))
+			if recv != in {
+				// the result used as the in-place receiver of a further call must not reach back into the
+				// operand (a result sharing the operand's backing array would): the operand still sums
+				// and norms like the vector it was cloned from
+				recv.ScaleVec(2, recv)
+				g.count("scale:then-mutate-result")
+				h.emit(h.line("C09", "sum").Vec(v).Bar().F(in.Sum()))
+				h.emit(h.line("C09", "norm2").Vec(v).Bar().F(in.Norm2()))
+			}
 		case 3: // dot (both orders)
 			v1, v2, _ := g.vecPair()
 			if g.intn(4) == 0 {
